@@ -141,7 +141,10 @@ func facts(repo string) (string, error) {
 			return true
 		}
 		if be, ok := fs.Cond.(*ast.BinaryExpr); ok && be.Op == token.LSS {
-			if bl, ok := be.Y.(*ast.BasicLit); ok && bl.Kind == token.INT && str(fs.Init) == "i := 0" && str(fs.Post) == "i++" {
+			// wave 9: only the literal bound is read here; how the counter is initialised and stepped
+			// (`i++` / `i += 1`, the name of the counter) is what the regenerated tie c09_trans_fillCred
+			// re-proves from the translated loop on every run
+			if bl, ok := be.Y.(*ast.BasicLit); ok && bl.Kind == token.INT && fs.Init != nil && fs.Post != nil {
 				rounds, _ = strconv.Atoi(bl.Value)
 			}
 		}
